@@ -189,6 +189,20 @@ CHECKS.update({
         design='7/C18', technique='Coq proof (get_type theorems) + acc correspondence + oracle'),
 })
 
+CHECKS.update({
+    'C13': dict(
+        text='Coq proofs, unbounded: each pass that builds a clause node EQUALS a clean left-to-right functional specification '
+             '(C13_where_pass = where_spec under the bracket-shape invariant, C13_functions_pass, C13_typed_literal_pass, '
+             'C13_comparison_pass, C13_identifier_list_pass via a generic theorem about the _group driver), with written-clause '
+             'corollaries for ANY length (where_extent, identifier_list_one_group: n items become ONE IdentifierList with exactly the '
+             'written items; comparison_chain; typed literals); exact accessor models with get_identifiers_spec, get_parameters_spec/'
+             '_partial (+ refutation: a sole non-identifier argument is dropped), get_cases_wellformed, comparison_operands; closed '
+             'finite pipeline families (C13Fin: 162 WHERE texts x followers x nesting, lists, calls, typed literals, comparisons). '
+             'Direct oracle on generated instances with known expected structure; 18 listed deviation classes (mechanism signatures).',
+        note='Partial: pipeline composition beyond the finite families by oracle + correspondence; 18 known findings.',
+        design='7/C13', technique='Coq proof (pass = specification; accessor theorems; finite families) + correspondence + oracle'),
+})
+
 NOT_YET = {}
 
 
